@@ -7,6 +7,7 @@ import (
 
 	"github.com/relab/gorums"
 	"github.com/relab/gorums/ordering"
+	"google.golang.org/grpc/codes"
 	"google.golang.org/grpc/encoding"
 	"google.golang.org/protobuf/encoding/protowire"
 	"google.golang.org/protobuf/proto"
@@ -234,6 +235,50 @@ func afterC13(w *World) {
 		w.mu.Lock()
 		hs := append([]*HandlerRec(nil), w.hrecs...)
 		w.mu.Unlock()
+		// ... and a handler's error status reaches the caller with the same code and message
+		// (judged when no context ended before its call completed: a cancellation resets the
+		// shared stream and may legitimately replace a node's status by a connection error)
+		quiet := true
+		for _, c := range w.calls[1:] {
+			if c.InvokeSeq != 0 && c.CtxEndSeq != 0 && (c.DoneSeq == 0 || c.CtxEndSeq < c.DoneSeq) {
+				quiet = false
+			}
+		}
+		for _, c := range w.calls[1:] {
+			if !quiet || c.InvokeSeq == 0 || c.DoneSeq == 0 || c.Err == nil || c.IsProbe {
+				continue
+			}
+			var entries []nodeErrEntry
+			switch c.Info.Kind {
+			case "rpc":
+				if len(c.Targets) == 1 {
+					e := nodeErrEntry{ID: nodeID(c.Targets[0]), Text: c.ErrText}
+					if sm := statusRe.FindStringSubmatch(c.ErrText); sm != nil {
+						e.Code, e.Desc = sm[1], sm[2]
+					}
+					entries = append(entries, e)
+				}
+			case "qc", "async":
+				entries = parseNodeErrors(c.ErrText)
+			}
+			for _, e := range entries {
+				for _, si := range c.Targets {
+					if nodeID(si) != e.ID {
+						continue
+					}
+					for _, h := range w.handlersFor(c, si) {
+						if h.ErrCode == 0 {
+							continue
+						}
+						ok := e.Code == codes.Code(h.ErrCode).String() && e.Desc == h.ErrMsg
+						w.rule("C13.status-round-trips", ok)
+						if !ok {
+							w.violate("C13", "status-not-equal", "", "call t%d (%s): the handler of node %d failed with code %s and message %q, the caller sees %q", c.Tok, c.Stub, e.ID, codes.Code(h.ErrCode), clip(h.ErrMsg), clip(e.Text))
+						}
+					}
+				}
+			}
+		}
 		for _, h := range hs {
 			if h.Tok <= 0 || h.Tok >= len(w.calls) {
 				continue
